@@ -8,6 +8,7 @@ Open Scope Q_scope.
 
 Definition QA : akern Q :=
   {| a_power_scale := An_power_scale;
+     a_abs_applied := An_abs_applied;
      a_proportion := An_proportion;
      a_remaining := EV_remaining_demand;
      a_demand_met := An_demand_met;
@@ -44,7 +45,7 @@ Definition check_c18 (c : c18case) : bool :=
   Qlist_close (aggregate_current QO tr) (i_agg_current c)
   && Qlist_close (aggregate_power QO QA tr) (i_agg_power c)
   (* the implementation-shaped model against the implementation *)
-  && forallb (fun r => let '(flag, ids, out) := r in dict_close (constraint_currents QO tr flag ids) out) (i_cc c)
+  && forallb (fun r => let '(flag, ids, out) := r in dict_close (constraint_currents QO QA tr flag ids) out) (i_cc c)
   && Qclose (total_energy_requested QO tr) (i_requested c)
   && Qclose (total_energy_delivered QO tr) (i_delivered c)
   && oQ_close (proportion_of_energy_delivered QO QA tr) (i_proportion c)
@@ -57,7 +58,7 @@ Definition check_c18 (c : c18case) : bool :=
 
 (* used by Example C18_example_exec: |16 + 8i| is returned for constraint 10 in period 0 *)
 Definition check_c18_example (tr : traj (F:=Q)) : bool :=
-  match dict_get 10%Z (constraint_currents QO tr false None) with
+  match dict_get 10%Z (constraint_currents QO QA tr false None) with
   | Some (Mag (m :: _)) => Qclose_tol (1 # 1000000) m (17888544 # 1000000)
   | _ => false
   end.
